@@ -25,5 +25,6 @@ Lists(maxParts, A, S, L) ==
 
 Far == 40 * 16
 ListsTiny == Lists(2, {1, 32}, {0, 3}, {Far + 3})
+ListsBad == Lists(2, {1, 32}, {3}, {})
 BothRelro == {TRUE, FALSE}
 =============================================================================
